@@ -30,7 +30,7 @@ func implDecode(frame []byte, spare int) (text string, frmOff, frmLen int) {
 		back[i] = 0x5A
 	}
 	copy(back, frame)
-	view := back[0:len(frame) : len(frame)+spare]
+	view := back[0 : len(frame) : len(frame)+spare]
 	text = "panic"
 	frmOff, frmLen = -2, 0
 	func() {
